@@ -9,6 +9,7 @@ import (
 	"testing"
 	"time"
 
+	"github.com/jhalter/mobius/hotline"
 	"github.com/jhalter/mobius/verifhooks"
 	"gopkg.in/yaml.v3"
 	"pgregory.net/rapid"
@@ -139,6 +140,54 @@ func c06create(rt *rapid.T, creator, requested hlref.Access, path string, via ..
 		}
 	})
 	return created
+}
+
+// TestC06RenameForm: the batch editor's request has a third form - an entry that names an existing login and a
+// new one - which also brings a login into existence.  A creator who may create but not modify accounts makes an
+// account within its own privileges and then sends that form with privileges of its choice: no login holding a
+// privilege the creator lacks may exist afterwards, in memory or on disk.
+func TestC06RenameForm(t *testing.T) {
+	ev := evid.New("C06", "TestC06RenameForm")
+	defer ev.Flush()
+	rapid.Check(t, func(rt *rapid.T) {
+		creator := genAccess(rt, "creator").Defined()
+		creator.Set(hlref.PrivCreateUser)
+		creator.Clear(hlref.PrivModifyUser)
+		requested := genAccess(rt, "requested").Defined()
+		if rapid.Bool().Draw(rt, "full") {
+			requested = hlref.AllAccess().Defined()
+		}
+		amplifies := !subset(requested, creator)
+		opt := hlsim.Options{Agreement: "a", Accounts: []hlsim.AccountSpec{acct("admin", "Admin", "adminpw", allAccess), {Login: "creator", Name: "Creator", Password: "cpw", Access: creator}}}
+		inWorld(rt, opt, func(rt *rapid.T, w *hlsim.World) {
+			admin := loginAs(rt, w, "10.0.0.1:1", "admin", "adminpw", "admin")
+			c := loginAs(rt, w, "10.0.0.2:1", "creator", "cpw", "creator")
+			var none hlref.Access
+			if r := c.Request(hlref.TranUpdateUser, fld(hlref.FData, subFields(fld(hlref.FUserLogin, hlref.Obfuscate([]byte("tmp"))), sfld(hlref.FUserName, "Tmp"),
+				fld(hlref.FUserPassword, hlref.Obfuscate([]byte("tpw"))), fld(hlref.FUserAccess, none[:])))); !okReply(r) {
+				rt.Fatalf("harness: creation of an account without privileges refused: %s", replySummary(r))
+			}
+			c.Request(hlref.TranUpdateUser, fld(hlref.FData, subFields(fld(hlref.FData, hlref.Obfuscate([]byte("tmp"))), fld(hlref.FUserLogin, hlref.Obfuscate([]byte("made"))), sfld(hlref.FUserName, "Made"),
+				fld(hlref.FUserPassword, hlref.Obfuscate([]byte("mpw"))), fld(hlref.FUserAccess, requested[:]))))
+			for _, login := range []string{"made", "tmp"} {
+				var mem hlref.Access
+				if g := admin.Request(hlref.TranGetUser, sfld(hlref.FUserLogin, login)); okReply(g) {
+					d, _ := g.Get(hlref.FUserAccess)
+					copy(mem[:], d)
+					if !subset(mem, creator) {
+						rt.Fatalf("creator %v (may create, may not modify accounts) made an account and sent the rename form of update-user with privileges %v: login %q now holds %v in memory - privileges the creator lacks", bitsOf(creator), bitsOf(requested), login, bitsOf(mem))
+					}
+				}
+				if b, err := os.ReadFile(filepath.Join(w.UsersDir, login+".yaml")); err == nil {
+					var a hotline.Account
+					if yaml.Unmarshal(b, &a) == nil && !subset(hlref.Access(a.Access), creator) {
+						rt.Fatalf("creator %v sent the rename form of update-user with privileges %v: the account file of %q holds %v - privileges the creator lacks", bitsOf(creator), bitsOf(requested), login, bitsOf(hlref.Access(a.Access)))
+					}
+				}
+			}
+		})
+		ev.Case(evid.Hash("renameform", creator[:], requested[:]), amplifies, "rename-form")
+	})
 }
 
 func TestC06Create(t *testing.T) {
